@@ -1,6 +1,7 @@
 /- Helper lemmas: `strptime` on the output of `strftime` for zero-padded numeric fields. -/
 import XsdataModel.Conv.Strptime
 import XsdataModel.Proofs.IntL
+import XsdataModel.Proofs.Strip
 
 namespace Xs.Conv
 open Py Xs.Spec Xs.Dates
@@ -133,5 +134,28 @@ theorem natStr_len4 (n : Nat) (h1 : 1000 ≤ n) (h2 : n < 10000) : (natStr n).le
     (by omega)
   have e : 1000 * (n / 1000) + 100 * (n / 100 % 10) + 10 * (n / 10 % 10) + n % 10 = n := by omega
   rwa [e] at this
+
+/-- what `strptime` returns once the first match is known -/
+theorem strptime_of_first (e : Env) (s fmt : Str) (items : List FItem) (f : TmF)
+    (hc : compileFmt e fmt false = .ok items) (hn : dirsNodup items = true)
+    (hm : firstMatch e items s {} = some (f, [])) :
+    strptime e s fmt =
+      (if f.year.getD 1900 < 1 || f.second.getD 0 > 59 ||
+          !validateDate (f.year.getD 1900) (f.month.getD 1) (f.day.getD 1) then .err
+       else .ok ⟨f.year.getD 1900, f.month.getD 1, f.day.getD 1, f.hour.getD 0, f.minute.getD 0,
+         f.second.getD 0, f.frac.getD 0⟩) := by
+  unfold strptime
+  simp only [hc, hn, Bool.not_true, Bool.false_eq_true, if_false]
+  unfold firstMatch at hm
+  cases hl : matchItems e items s {} with
+  | nil => simp [hl] at hm
+  | cons x xs =>
+    simp only [hl, List.head?_cons, Option.some.injEq] at hm
+    subst hm
+    simp
+
+theorem dash_colon_T_not_space (e : Env) :
+    e.isSpace '-' = false ∧ e.isSpace ':' = false ∧ e.isSpace 'T' = false := by
+  refine ⟨?_, ?_, ?_⟩ <;> (rw [isSpace_ascii e _ (by decide)]; decide)
 
 end Xs.Conv
